@@ -77,6 +77,12 @@ CHECKS["C03"] = dict(
     technique="TLA+ grammar enumerated by TLC with predicted signatures; real generator expansion judged by the compiler's FFI lint",
     design="DESIGN.md §5 C03")
 
+CHECKS["C04"] = dict(
+    text="spec/Layout.tla defines the documented layout (vtable = methods in declaration order; group = mandatory vtables by name, optional vtables by name/alias, container {instance, context, temporaries}) and TLC checks (ASSUME OrderInvariant) that it does not depend on listing order while enumerating every listing order of every group set over a pool of traits whose declaration order is not alphabetical. The real generator expands the definitions in repeated fresh processes (identical layout tables required), the field tables are compared with the predicted order, and a compiled crate reads real trait objects and group objects as raw words: vtable word k = k-th method's function pointer, group words = per-trait vtable pointers in the predicted order (null for absent optionals) followed by the instance, and concrete vs opaque forms have identical size, alignment and bits.",
+    note="Trusted: TLC, harness/gen (syn field tables), the raw-word reader. Cross-crate/plugin sides are exercised by C05.",
+    technique="TLA+ layout function checked for order-invariance and enumerated by TLC; generator output and raw object words compared with the prediction",
+    design="DESIGN.md §5 C04")
+
 NOT_YET = {}
 
 def main():
